@@ -12,11 +12,11 @@ func init() {
 	register(func() {
 		engine.Register(&engine.Check{
 			ID: "C07", Level: "exploration",
-			Rule: "the event-stream language of C01 (trees, scalar sweep, string sweep, length sweep, all extended events; x 3 codecs x JSON option sets) is written by the real encoders; the bytes are judged by the independent reference decoders (refjson/refcbor/refubj): exactly one complete value equal to the stream's value, plus the JSON byte-level rules (valid UTF-8, no raw control characters, no raw <>& under escapeHTML, floats stay floats under explicitRadixPoint, non-finite floats refused or null); distinct by (codec, options, stream), non-trivial as in C01",
+			Rule:        "the event-stream language of C01 (trees, scalar sweep, string sweep, length sweep, all extended events; x 3 codecs x JSON option sets) is written by the real encoders; the bytes are judged by the independent reference decoders (refjson/refcbor/refubj): exactly one complete value equal to the stream's value, plus the JSON byte-level rules (valid UTF-8, no raw control characters, no raw <>& under escapeHTML, floats stay floats under explicitRadixPoint, non-finite floats refused or null); distinct by (codec, options, stream), non-trivial as in C01",
 			Assumptions: []string{"reference decoders are trusted as the format definitions", "small-scope hypothesis as in C01"},
 			Families:    func(tier string) []engine.Family { return streamFamilies(tier, c07Body) },
 			Bounds: func(tier string) map[string]interface{} {
-				return map[string]interface{}{"max_tree_nodes": tierPick(tier, 4, 5), "leaf_alphabet": tierPick(tier, 3, 5), "string_atoms_max": tierPick(tier, 2, 3)}
+				return map[string]interface{}{"max_tree_nodes": tierPick(tier, 4, 6), "leaf_alphabet": tierPick(tier, 3, 4), "string_atoms_max": tierPick(tier, 2, 3)}
 			},
 			Require: []string{"documents_judged", "json_bytes_checked"},
 		})
